@@ -82,8 +82,8 @@ theorem walkPound_ge (b : Buf) (pos : Nat) (e : Option Char) (r : Nat) (hlt : po
     · simp at h
     · split at h <;> simp only [Except.ok.injEq] at h <;> omega
 
-theorem hereSearch_ge (w : List Char) (b : Buf) (fuel : Nat) : ∀ (from_ e : Nat),
-    hereSearch w b from_ fuel = .ok (some e) → from_ ≤ e := by
+theorem hereSearch_ge (w : List Char) (b : Buf) (tabs : Bool) (ec : Char) (fuel : Nat) : ∀ (from_ e : Nat),
+    hereSearch w b tabs ec from_ fuel = .ok (some e) → from_ ≤ e := by
   induction fuel with
   | zero => intro from_ e h; simp [hereSearch] at h
   | succ n ih =>
@@ -96,7 +96,7 @@ theorem hereSearch_ge (w : List Char) (b : Buf) (fuel : Nat) : ∀ (from_ e : Na
       split at h
       · simp at h
       · rename_i c _
-        by_cases hc : ((if w.length ≠ 0 then oneOf ";\n\r})" c else oneOf "\n\r" c) = true ∧ lineStartBefore b e' = true)
+        by_cases hc : hereEnds w b tabs ec e' c = true
         · rw [if_pos hc] at h
           simp only [Except.ok.injEq, Option.some.injEq] at h; omega
         · rw [if_neg hc] at h
@@ -191,7 +191,7 @@ theorem bind_ok {α β : Type} {x : Except Err α} {f : α → Except Err β} {r
 
 /-- all walkers, at fuel `n`, return a position that is not before the one they started at -/
 structure Mono (n : Nat) : Prop where
-  here : ∀ b pos r, walkHere n b pos = .ok r → pos < r
+  here : ∀ b pos e r, walkHere n b pos e = .ok r → pos < r
   cloop : ∀ b st pos e l r, walkComplexLoop n b st pos e l = .ok r → pos ≤ r
   complex : ∀ b pos e l r, walkComplex n b pos e l = .ok r → pos ≤ r
   esc : ∀ b pos e r, walkEscaped n b pos e = .ok r → pos ≤ r
@@ -305,9 +305,9 @@ theorem dollar_step (n : Nat) (ih : Mono n) : ∀ b pos e dq r, walkDollar (n + 
           · exact ih.dname _ _ _ _ (by omega) h
         · have := ih.dbrace _ _ _ _ h; omega
 
-theorem here_tail (b : Buf) (ws eh r : Nat)
+theorem here_tail (b : Buf) (tabs : Bool) (ec : Char) (ws eh r : Nat)
     (h : (if eh + 1 ≥ b.length then (pure (eh + 1) : Except Err Nat) else do
-        let s ← hereSearch (slice b ws eh) b (eh + 1) (b.length + 1)
+        let s ← hereSearch (slice b ws eh) b tabs ec (eh + 1) (b.length + 1)
         match s with
           | none => pure b.length
           | some e => pure (e + (slice b ws eh).length)) = .ok r) : eh + 1 ≤ r ∨ r = b.length := by
@@ -317,10 +317,10 @@ theorem here_tail (b : Buf) (ws eh r : Nat)
     split at h
     · simp only [pure, Except.pure, Except.ok.injEq] at h; omega
     · simp only [pure, Except.pure, Except.ok.injEq] at h
-      have := hereSearch_ge _ b _ _ _ hsr; omega
+      have := hereSearch_ge _ b _ _ _ _ _ hsr; omega
 
-theorem here_step (n : Nat) (ih : Mono n) : ∀ b pos r, walkHere (n + 1) b pos = .ok r → pos < r := by
-  intro b pos r h
+theorem here_step (n : Nat) (ih : Mono n) : ∀ b pos e r, walkHere (n + 1) b pos e = .ok r → pos < r := by
+  intro b pos ec r h
   rw [walkHere] at h
   simp only [] at h
   split at h
@@ -337,11 +337,11 @@ theorem here_step (n : Nat) (ih : Mono n) : ∀ b pos r, walkHere (n + 1) b pos 
         split at h
         · simp only [pure_bind] at h
           have := walkNoParsing_succ b p q hlt
-          rcases here_tail b _ _ r h with h' | h' <;> omega
+          rcases here_tail b _ _ _ _ r h with h' | h' <;> omega
         · obtain ⟨e, he, h⟩ := bind_ok h
           simp only [pure_bind] at h
           have := ih.complex _ _ _ _ _ he
-          rcases here_tail b _ _ r h with h' | h' <;> omega
+          rcases here_tail b _ _ _ _ r h with h' | h' <;> omega
 
 theorem cloop_step (n : Nat) (ih : Mono n) : ∀ b st pos e l r,
     walkComplexLoop (n + 1) b st pos e l = .ok r → pos ≤ r := by
@@ -368,7 +368,7 @@ theorem cloop_step (n : Nat) (ih : Mono n) : ∀ b st pos e l r,
         · split at h
           · split at h
             · obtain ⟨p, hp, h⟩ := bind_ok h
-              have := ih.here _ _ _ hp; have := ih.cloop _ _ _ _ _ _ h; omega
+              have := ih.here _ _ _ _ hp; have := ih.cloop _ _ _ _ _ _ h; omega
             · have := ih.cloop _ _ _ _ _ _ h; omega
           · split at h
             · simp only [] at h
@@ -1010,8 +1010,8 @@ theorem nf_bind {α β : Type} {x : Except Err α} {f : α → Except Err β} (h
     exact hx (by rw [this])
   | ok a => exact hf a rfl
 
-theorem hereSearch_nofuel (w : List Char) (b : Buf) (k : Nat) : ∀ from_, 1 ≤ k → b.length + 2 ≤ k + from_ →
-    hereSearch w b from_ k ≠ .error .fuel := by
+theorem hereSearch_nofuel (w : List Char) (b : Buf) (tabs : Bool) (ec : Char) (k : Nat) : ∀ from_, 1 ≤ k →
+    b.length + 2 ≤ k + from_ → hereSearch w b tabs ec from_ k ≠ .error .fuel := by
   induction k with
   | zero => intro from_ h; omega
   | succ k ih =>
@@ -1025,7 +1025,7 @@ theorem hereSearch_nofuel (w : List Char) (b : Buf) (k : Nat) : ∀ from_, 1 ≤
       split
       · simp
       · rename_i c _
-        by_cases hc : ((if w.length ≠ 0 then oneOf ";\n\r})" c else oneOf "\n\r" c) = true ∧ lineStartBefore b e = true)
+        by_cases hc : hereEnds w b tabs ec e c = true
         · rw [if_pos hc]; simp
         · rw [if_neg hc]
           apply ih
@@ -1038,7 +1038,7 @@ def Enough (n : Nat) (b : Buf) (pos rank : Nat) : Prop := 6 * (b.length + 1 - po
 
 /-- no walker runs out of fuel when it has `Enough` -/
 structure NF (n : Nat) (b : Buf) : Prop where
-  here : ∀ pos, Enough n b pos 1 → walkHere n b pos ≠ .error .fuel
+  here : ∀ pos e, Enough n b pos 1 → walkHere n b pos e ≠ .error .fuel
   cloop : ∀ st pos e l, Enough n b pos 1 → walkComplexLoop n b st pos e l ≠ .error .fuel
   complex : ∀ pos e l, Enough n b pos 2 → walkComplex n b pos e l ≠ .error .fuel
   esc : ∀ pos e, Enough n b pos 1 → walkEscaped n b pos e ≠ .error .fuel
@@ -1161,21 +1161,21 @@ theorem dollar_nf (n : Nat) (b : Buf) (ih : NF n b) : ∀ pos e dq, Enough (n + 
           · exact ih.dname _ _ (by unfold Enough; omega)
         · exact ih.dbrace _ _ (by unfold Enough; omega)
 
-theorem here_tail_nf (b : Buf) (ws eh : Nat) :
+theorem here_tail_nf (b : Buf) (tabs : Bool) (ec : Char) (ws eh : Nat) :
     (if eh + 1 ≥ b.length then (pure (eh + 1) : Except Err Nat) else do
-        let s ← hereSearch (slice b ws eh) b (eh + 1) (b.length + 1)
+        let s ← hereSearch (slice b ws eh) b tabs ec (eh + 1) (b.length + 1)
         match s with
           | none => pure b.length
           | some e => pure (e + (slice b ws eh).length)) ≠ .error .fuel := by
   split
   · simp [pure, Except.pure]
-  · apply nf_bind (hereSearch_nofuel _ b _ _ (by omega) (by omega))
+  · apply nf_bind (hereSearch_nofuel _ b _ _ _ _ (by omega) (by omega))
     intro s _
     split <;> simp [pure, Except.pure]
 
-theorem here_nf (n : Nat) (b : Buf) (ih : NF n b) : ∀ pos, Enough (n + 1) b pos 1 →
-    walkHere (n + 1) b pos ≠ .error .fuel := by
-  intro pos hen
+theorem here_nf (n : Nat) (b : Buf) (ih : NF n b) : ∀ pos e, Enough (n + 1) b pos 1 →
+    walkHere (n + 1) b pos e ≠ .error .fuel := by
+  intro pos ec hen
   unfold Enough at hen
   rw [walkHere]
   simp only []
@@ -1193,11 +1193,11 @@ theorem here_nf (n : Nat) (b : Buf) (ih : NF n b) : ∀ pos, Enough (n + 1) b po
         have hltp := getElem?_lt hq
         split
         · simp only [pure_bind]
-          exact here_tail_nf b _ _
+          exact here_tail_nf b _ _ _ _
         · apply nf_bind (ih.complex _ _ _ (by unfold Enough; omega))
           intro e _
           simp only [pure_bind]
-          exact here_tail_nf b _ _
+          exact here_tail_nf b _ _ _ _
 
 theorem isSpace_space : isSpace ' ' = true := by decide
 
@@ -1270,9 +1270,9 @@ theorem cloop_nf (n : Nat) (b : Buf) (hs : Sent b) (ih : NF n b) : ∀ st pos e 
         · exact ih.cloop _ _ _ _ (en1 _ (by omega))
         · split
           · split
-            · apply nf_bind (ih.here _ (en1 _ (by omega)))
+            · apply nf_bind (ih.here _ _ (en1 _ (by omega)))
               intro p hp
-              have := M.here _ _ _ hp
+              have := M.here _ _ _ _ hp
               exact ih.cloop _ _ _ _ (en1 _ (by omega))
             · exact ih.cloop _ _ _ _ (en1 _ (by omega))
           · split
@@ -1452,5 +1452,607 @@ theorem mainRun_nofuel (data : List Char) (vm fm : Option (List Char → Bool)) 
     simp only [Except.error.injEq] at h
     rw [h] at he
     exact this he
+
+
+/-! ## name selection -/
+
+theorem starM_iff (cs : Cs) (k : Nat → List Char → Bool) : ∀ (s : List Char) (i : Nat),
+    starM cs k i s = true ↔
+      ∃ n, n ≤ s.length ∧ (∀ c ∈ s.take n, cs.accepts c = true) ∧ k (i + n) (s.drop n) = true := by
+  intro s
+  induction s with
+  | nil =>
+    intro i
+    simp only [starM, List.length_nil, Nat.le_zero_eq, List.take_nil, List.not_mem_nil, false_imp_iff, implies_true,
+      List.drop_nil, true_and]
+    constructor
+    · intro h; exact ⟨0, rfl, by simpa using h⟩
+    · rintro ⟨n, rfl, h⟩; simpa using h
+  | cons c s ih =>
+    intro i
+    simp only [starM, Bool.or_eq_true, Bool.and_eq_true, ih]
+    constructor
+    · rintro (h | ⟨hc, n, hn, hall, hk⟩)
+      · exact ⟨0, by simp, by simp, by simpa using h⟩
+      · refine ⟨n + 1, by simp; omega, ?_, ?_⟩
+        · intro d hd
+          simp only [List.take_succ_cons, List.mem_cons] at hd
+          rcases hd with rfl | hd
+          · exact hc
+          · exact hall d hd
+        · have : i + (n + 1) = i + 1 + n := by omega
+          simpa [this] using hk
+    · rintro ⟨n, hn, hall, hk⟩
+      cases n with
+      | zero => left; simpa using hk
+      | succ n =>
+        right
+        refine ⟨hall c (by simp), n, by simp at hn; omega, ?_, ?_⟩
+        · intro d hd; exact hall d (by simp [hd])
+        · have : i + (n + 1) = i + 1 + n := by omega
+          simpa [this] using hk
+
+/-- the regular-expression items of one element of a simple pattern -/
+def itemRes : Cs × Rep → List Re
+  | (cs, .one) => [.ch cs]
+  | (cs, .star) => [.star cs]
+  | (cs, .plus) => [.ch cs, .star cs]
+  | (cs, .opt) => [.alt (.ch cs) .eps]
+
+/-- the first `n` characters of `s` are a run for the element `(cs, r)` -/
+def Run (cs : Cs) (r : Rep) (s : List Char) (n : Nat) : Prop :=
+  n ≤ s.length ∧ r.allows n = true ∧ ∀ c ∈ s.take n, cs.accepts c = true
+
+theorem item_iff (cs : Cs) (r : Rep) (tail : List Re) (i : Nat) (s : List Char) (k : Nat → List Char → Bool) :
+    (seqOf (itemRes (cs, r) ++ tail)).m i s k = true ↔
+      ∃ n, Run cs r s n ∧ (seqOf tail).m (i + n) (s.drop n) k = true := by
+  cases r with
+  | one =>
+    simp only [itemRes, List.singleton_append, seqOf, Re.m, Run, Rep.allows]
+    cases s with
+    | nil =>
+      simp only [Bool.false_eq_true, false_iff]
+      rintro ⟨n, ⟨hn, h1, _⟩, _⟩
+      simp at hn h1; omega
+    | cons c s =>
+      simp only [Bool.and_eq_true]
+      constructor
+      · rintro ⟨hc, hk⟩
+        exact ⟨1, ⟨by simp, by simp, by simpa using hc⟩, by simpa using hk⟩
+      · rintro ⟨n, ⟨hn, h1, hall⟩, hk⟩
+        have : n = 1 := by simpa using h1
+        subst this
+        exact ⟨hall c (by simp), by simpa using hk⟩
+  | star =>
+    simp only [itemRes, List.singleton_append, seqOf, Re.m, Run, Rep.allows, true_and]
+    rw [starM_iff]
+    constructor
+    · rintro ⟨n, hn, hall, hk⟩; exact ⟨n, ⟨hn, hall⟩, hk⟩
+    · rintro ⟨n, ⟨hn, hall⟩, hk⟩; exact ⟨n, hn, hall, hk⟩
+  | plus =>
+    simp only [itemRes, List.cons_append, List.nil_append, seqOf, Re.m, Run, Rep.allows]
+    cases s with
+    | nil =>
+      simp only [Bool.false_eq_true, false_iff]
+      rintro ⟨n, ⟨hn, h1, _⟩, _⟩
+      simp at hn h1; omega
+    | cons c s =>
+      simp only [Bool.and_eq_true, starM_iff]
+      constructor
+      · rintro ⟨hc, n, hn, hall, hk⟩
+        refine ⟨n + 1, ⟨by simp; omega, by simp, ?_⟩, ?_⟩
+        · intro d hd
+          simp only [List.take_succ_cons, List.mem_cons] at hd
+          rcases hd with rfl | hd
+          · exact hc
+          · exact hall d hd
+        · have : i + (n + 1) = i + 1 + n := by omega
+          simpa [this] using hk
+      · rintro ⟨n, ⟨hn, h1, hall⟩, hk⟩
+        cases n with
+        | zero => simp at h1
+        | succ n =>
+          refine ⟨hall c (by simp), n, by simp at hn; omega, ?_, ?_⟩
+          · intro d hd; exact hall d (by simp [hd])
+          · have : i + (n + 1) = i + 1 + n := by omega
+            simpa [this] using hk
+  | opt =>
+    simp only [itemRes, List.singleton_append, seqOf, Re.m, Run, Rep.allows, Bool.or_eq_true]
+    constructor
+    · rintro (h | h)
+      · cases s with
+        | nil => simp at h
+        | cons c s =>
+          simp only [Bool.and_eq_true] at h
+          exact ⟨1, ⟨by simp, by simp, by simpa using h.1⟩, by simpa using h.2⟩
+      · exact ⟨0, ⟨by simp, by simp, by simp⟩, by simpa using h⟩
+    · rintro ⟨n, ⟨hn, h1, hall⟩, hk⟩
+      have h1' : n ≤ 1 := by simpa using h1
+      cases n with
+      | zero => right; simpa using hk
+      | succ n =>
+        have : n = 0 := by omega
+        subst this
+        left
+        cases s with
+        | nil => simp at hn
+        | cons c s =>
+          simp only [Bool.and_eq_true]
+          exact ⟨hall c (by simp), by simpa using hk⟩
+
+theorem matchSimple_cons_iff (cs : Cs) (r : Rep) (p : Simple) (s : List Char) :
+    matchSimple ((cs, r) :: p) s = true ↔ ∃ n, Run cs r s n ∧ matchSimple p (s.drop n) = true := by
+  simp only [matchSimple, List.any_eq_true, List.mem_range, Bool.and_eq_true, List.all_eq_true, Run]
+  constructor
+  · rintro ⟨n, hn, ⟨h1, hall⟩, hm⟩; exact ⟨n, ⟨by omega, h1, hall⟩, hm⟩
+  · rintro ⟨n, ⟨hn, h1, hall⟩, hm⟩; exact ⟨n, by omega, ⟨h1, hall⟩, hm⟩
+
+theorem seqOf_append_m (a b : List Re) : ∀ (i : Nat) (s : List Char) (k : Nat → List Char → Bool),
+    (seqOf (a ++ b)).m i s k = (seqOf a).m i s (fun i' s' => (seqOf b).m i' s' k) := by
+  induction a with
+  | nil => intro i s k; simp [seqOf, Re.m]
+  | cons r a ih =>
+    intro i s k
+    simp only [List.cons_append, seqOf, Re.m]
+    congr 1
+    funext i' s'
+    exact ih i' s' k
+
+theorem altOf_m (rs : List Re) (hne : rs ≠ []) (i : Nat) (s : List Char) (k : Nat → List Char → Bool) :
+    (altOf rs).m i s k = rs.any (fun r => r.m i s k) := by
+  induction rs with
+  | nil => exact absurd rfl hne
+  | cons r rs ih =>
+    cases rs with
+    | nil => simp [altOf]
+    | cons r2 rs =>
+      simp only [altOf, Re.m, List.any_cons]
+      rw [ih (by simp)]
+      simp [List.any_cons]
+
+/-- a simple pattern followed by `$`, matched against a name without newline, is the whole-name match of the spec -/
+theorem simple_eol_m (p : Simple) : ∀ (i : Nat) (s : List Char), '\n' ∉ s →
+    (seqOf (p.flatMap itemRes ++ [.eol])).m i s (fun _ _ => true) = matchSimple p s := by
+  induction p with
+  | nil =>
+    intro i s hs
+    simp only [List.flatMap_nil, List.nil_append, seqOf, Re.m, matchSimple, Bool.and_true]
+    cases s with
+    | nil => simp
+    | cons c s =>
+      have : (c :: s == ['\n']) = false := by
+        apply Bool.eq_false_iff.mpr
+        intro h
+        have := eq_of_beq h
+        simp only [List.cons.injEq] at this
+        exact hs (by simp [this.1])
+      simp [this]
+  | cons it p ih =>
+    intro i s hs
+    obtain ⟨cs, r⟩ := it
+    rw [Bool.eq_iff_iff, List.flatMap_cons, List.append_assoc, item_iff, matchSimple_cons_iff]
+    constructor
+    · rintro ⟨n, hr, hm⟩
+      refine ⟨n, hr, ?_⟩
+      rw [← ih (i + n) (s.drop n) (fun h => hs (List.mem_of_mem_drop h))]; exact hm
+    · rintro ⟨n, hr, hm⟩
+      refine ⟨n, hr, ?_⟩
+      rw [ih (i + n) (s.drop n) (fun h => hs (List.mem_of_mem_drop h))]; exact hm
+
+/-! ### the parser on the strings `build_regex_string` builds -/
+
+theorem parseFrom_append (a b : List Char) : ∀ st : PState,
+    parseFrom st (a ++ b) = (parseFrom st a).bind fun st' => parseFrom st' b := by
+  induction a with
+  | nil => intro st; simp [parseFrom]
+  | cons c a ih =>
+    intro st
+    simp only [List.cons_append, parseFrom]
+    cases step st c with
+    | none => simp
+    | some st' => exact ih st'
+
+theorem special_not_alnum (c : Char) (h : isSpecial c = true) : isAlnum c = false := by
+  simp only [isSpecial, specials, List.contains_cons, List.contains_nil, Bool.or_false, Bool.or_eq_true, beq_iff_eq] at h
+  rcases h with h | h | h | h | h | h | h | h | h | h | h | h | h | h <;> subst h <;> decide +kernel
+
+theorem not_special (c : Char) (h : isSpecial c = false) :
+    c ≠ '.' ∧ c ≠ '^' ∧ c ≠ '$' ∧ c ≠ '*' ∧ c ≠ '+' ∧ c ≠ '?' ∧ c ≠ '{' ∧ c ≠ '}' ∧ c ≠ '[' ∧ c ≠ ']' ∧ c ≠ '\\' ∧
+      c ≠ '|' ∧ c ≠ '(' ∧ c ≠ ')' := by
+  simp only [isSpecial, specials, List.contains_cons, List.contains_nil, Bool.or_false, Bool.or_eq_false_iff,
+    beq_eq_false_iff_ne] at h
+  obtain ⟨h1, h2, h3, h4, h5, h6, h7, h8, h9, h10, h11, h12, h13, h14⟩ := h
+  exact ⟨h1, h2, h3, h4, h5, h6, h7, h8, h9, h10, h11, h12, h13, h14⟩
+
+theorem cs_parse (cs : Cs) (top : Frame) (stack : List Frame) :
+    parseFrom ⟨.normal, top, stack⟩ (renderCs cs) = some ⟨.normal, top.push (.ch cs), stack⟩ := by
+  cases cs with
+  | any => simp [renderCs, parseFrom, step]
+  | lit c =>
+    simp only [renderCs]
+    split
+    · rename_i h
+      have := special_not_alnum c h
+      simp [parseFrom, step, this]
+    · rename_i h
+      have h' : isSpecial c = false := by simpa using h
+      obtain ⟨h1, h2, h3, h4, h5, h6, h7, h8, h9, h10, h11, h12, h13, h14⟩ := not_special c h'
+      simp [parseFrom, step, *]
+
+theorem rep_parse (cs : Cs) (r : Rep) (top : Frame) (stack : List Frame) :
+    parseFrom ⟨.normal, top.push (.ch cs), stack⟩ (renderRep r) =
+      some ⟨.normal, { top with cur := top.cur ++ itemRes (cs, r) }, stack⟩ := by
+  cases r <;> simp [renderRep, parseFrom, step, applyPostfix, Frame.push, itemRes]
+
+theorem simple_parse (stack : List Frame) (p : Simple) : ∀ top : Frame,
+    parseFrom ⟨.normal, top, stack⟩ (renderSimple p) =
+      some ⟨.normal, { top with cur := top.cur ++ p.flatMap itemRes }, stack⟩ := by
+  induction p with
+  | nil => intro top; simp [renderSimple, parseFrom]
+  | cons it p ih =>
+    intro top
+    obtain ⟨cs, r⟩ := it
+    have : renderSimple ((cs, r) :: p) = renderCs cs ++ (renderRep r ++ renderSimple p) := by
+      simp [renderSimple]
+    rw [this, parseFrom_append, cs_parse, Option.bind_some, parseFrom_append, rep_parse, Option.bind_some, ih]
+    simp
+
+/-- the branches of an alternation read into a frame whose current branch already holds `cur0` -/
+def branches (cur0 : List Re) : List Simple → List Re
+  | [] => [seqOf cur0]
+  | p :: ps => seqOf (cur0 ++ p.flatMap itemRes) :: ps.map fun p => seqOf (p.flatMap itemRes)
+
+theorem alts_parse (stack : List Frame) (ps : List Simple) (hne : ps ≠ []) : ∀ top : Frame,
+    ∃ top', parseFrom ⟨.normal, top, stack⟩ (joinBar (ps.map renderSimple)) = some ⟨.normal, top', stack⟩ ∧
+      top'.neg = top.neg ∧ top'.alts ++ [seqOf top'.cur] = top.alts ++ branches top.cur ps := by
+  induction ps with
+  | nil => exact absurd rfl hne
+  | cons p ps ih =>
+    intro top
+    cases ps with
+    | nil =>
+      refine ⟨{ top with cur := top.cur ++ p.flatMap itemRes }, ?_, rfl, ?_⟩
+      · simp [joinBar, simple_parse]
+      · simp [branches]
+    | cons q ps =>
+      obtain ⟨top', h1, h2, h3⟩ := ih (by simp)
+        { top with alts := top.alts ++ [seqOf (top.cur ++ p.flatMap itemRes)], cur := [] }
+      refine ⟨top', ?_, h2, ?_⟩
+      · simp only [List.map_cons, joinBar] at h1 ⊢
+        rw [parseFrom_append, simple_parse, Option.bind_some]
+        simp only [parseFrom, step]
+        simpa using h1
+      · rw [h3]; simp [branches]
+
+/-- the pattern text before the optional inversion: `^(?:alt|alt|…)$` -/
+def coreStr (ps : List Simple) : List Char :=
+  '^' :: (['(', '?', ':'] ++ joinBar (ps.map renderSimple) ++ [')']) ++ ['$']
+
+/-- what it parses to -/
+def coreRe (ps : List Simple) : Re :=
+  seqOf [.bol, altOf (ps.map fun p => seqOf (p.flatMap itemRes)), .eol]
+
+theorem core_parse (ps : List Simple) (hne : ps ≠ []) (neg : Bool) (stack : List Frame) :
+    ∃ top', parseFrom ⟨.normal, ⟨neg, [], []⟩, stack⟩ (coreStr ps) = some ⟨.normal, top', stack⟩ ∧
+      top'.neg = neg ∧ top'.re = coreRe ps := by
+  obtain ⟨top', h1, h2, h3⟩ := alts_parse (⟨neg, [], [.bol]⟩ :: stack) ps hne ⟨false, [], []⟩
+  refine ⟨⟨neg, [], [.bol, altOf (ps.map fun p => seqOf (p.flatMap itemRes)), .eol]⟩, ?_, rfl, ?_⟩
+  · simp only [coreStr, List.cons_append, List.nil_append, List.append_assoc, parseFrom, step, Char.reduceEq,
+      ↓reduceIte, Frame.push]
+    rw [parseFrom_append, h1]
+    simp only [Option.bind_some, parseFrom, step, Char.reduceEq, ↓reduceIte, Frame.re, h3, h2, Frame.push]
+    cases ps with
+    | nil => exact absurd rfl hne
+    | cons p ps => simp [branches]
+  · simp [Frame.re, coreRe, altOf]
+
+theorem core_match (ps : List Simple) (hne : ps ≠ []) (name : List Char) (hn : '\n' ∉ name) :
+    (coreRe ps).m 0 name (fun _ _ => true) = ps.any (matchSimple · name) := by
+  simp only [coreRe, seqOf, Re.m, beq_self_eq_true, Bool.true_and]
+  rw [altOf_m _ (by simpa using hne)]
+  rw [List.any_map]
+  congr 1
+  funext p'
+  simp only [Function.comp]
+  have := seqOf_append_m (p'.flatMap itemRes) [.eol] 0 name (fun _ _ => true)
+  simp only [seqOf, Re.m] at this
+  rw [← simple_eol_m p' 0 name hn, this]
+
+theorem joinBar_append (a b : List (List Char)) (ha : a ≠ []) (hb : b ≠ []) :
+    joinBar (a ++ b) = joinBar a ++ '|' :: joinBar b := by
+  induction a with
+  | nil => exact absurd rfl ha
+  | cons x a ih =>
+    cases a with
+    | nil =>
+      cases b with
+      | nil => exact absurd rfl hb
+      | cons y b => simp [joinBar]
+    | cons x2 a =>
+      have := ih (by simp)
+      simp only [List.cons_append, joinBar] at this ⊢
+      rw [this]; simp
+
+theorem renderToken_nil : renderToken [] = [] := rfl
+
+/-- joining the tokens with `|` is joining all their alternatives with `|` -/
+theorem joinBar_tokens (ts : List Token) (h : ∀ t ∈ ts, t ≠ []) :
+    joinBar (ts.map renderToken) = joinBar (ts.flatten.map renderSimple) := by
+  induction ts with
+  | nil => rfl
+  | cons t ts ih =>
+    have ht := h t (by simp)
+    have ih' := ih (fun u hu => h u (by simp [hu]))
+    cases ts with
+    | nil => simp [joinBar, renderToken]
+    | cons t2 ts =>
+      have ht2 := h t2 (by simp)
+      have e1 : joinBar ((t :: t2 :: ts).map renderToken) =
+          renderToken t ++ '|' :: joinBar ((t2 :: ts).map renderToken) := by simp [joinBar]
+      have e2 : (t :: t2 :: ts).flatten.map renderSimple =
+          t.map renderSimple ++ (t2 :: ts).flatten.map renderSimple := by simp
+      have hne2 : (t2 :: ts).flatten.map renderSimple ≠ [] := by
+        cases t2 with
+        | nil => exact absurd rfl ht2
+        | cons p t2 => simp
+      rw [e1, e2, ih', joinBar_append _ _ (by simpa using ht) hne2]
+      rfl
+
+theorem build_tokens (ts : List Token) (hne : ts ≠ []) (hp : ∀ t ∈ ts, renderToken t ≠ []) (inv : Bool) :
+    buildRegexString (ts.map renderToken) inv =
+      some (if inv then ['(', '?', '!'] ++ coreStr ts.flatten ++ [')'] else coreStr ts.flatten) := by
+  have hf : (ts.map renderToken).filter (· ≠ []) = ts.map renderToken := by
+    rw [List.filter_eq_self]
+    intro t ht
+    obtain ⟨p, hp', rfl⟩ := List.mem_map.mp ht
+    simpa using hp p hp'
+  have hnil : ∀ t ∈ ts, t ≠ [] := by
+    intro t ht h0
+    exact hp t ht (by rw [h0]; rfl)
+  unfold buildRegexString
+  simp only [hf]
+  have : ts.map renderToken ≠ [] := by simpa using hne
+  simp only [this, ↓reduceIte, coreStr, joinBar_tokens ts hnil]
+
+theorem parse_build (ps : List Simple) (hne : ps ≠ []) (inv : Bool) :
+    parseRe (if inv then ['(', '?', '!'] ++ coreStr ps ++ [')'] else coreStr ps) =
+      some (if inv then seqOf [.neg (coreRe ps)] else coreRe ps) := by
+  cases inv with
+  | false =>
+    obtain ⟨top', h1, _, h3⟩ := core_parse ps hne false []
+    simp only [Bool.false_eq_true, ↓reduceIte, parseRe, h1, h3]
+  | true =>
+    obtain ⟨top', h1, h2, h3⟩ := core_parse ps hne true [⟨false, [], []⟩]
+    simp only [↓reduceIte, parseRe, List.cons_append, List.nil_append, parseFrom, step, Char.reduceEq]
+    rw [parseFrom_append, h1]
+    simp only [Frame.re] at h3
+    simp [parseFrom, step, h2, h3, Frame.push, Frame.re, altOf]
+
+/-- **`build_regex_string(...).match` is whole-name matching of the tokens**, on names without newline -/
+theorem mkMatcher_selects (ts : List Token) (hp : ∀ t ∈ ts, renderToken t ≠ []) (inv : Bool) :
+    ∃ m, mkMatcher (ts.map renderToken) inv = .ok m ∧
+      ∀ name, '\n' ∉ name → applyMatch m name = (!ts.isEmpty && selects ts inv name) := by
+  cases hts : ts with
+  | nil => exact ⟨none, by simp [mkMatcher], by intro name _; simp [applyMatch]⟩
+  | cons t0 ts0 =>
+    have hne : ts ≠ [] := by simp [hts]
+    have hfl : ts.flatten ≠ [] := by
+      have h0 : t0 ≠ [] := by
+        intro h0
+        exact hp t0 (by simp [hts]) (by rw [h0]; rfl)
+      rw [hts]
+      cases t0 with
+      | nil => exact absurd rfl h0
+      | cons p t0 => simp
+    rw [← hts]
+    refine ⟨some (if inv then seqOf [.neg (coreRe ts.flatten)] else coreRe ts.flatten).matches, ?_, ?_⟩
+    · unfold mkMatcher
+      have : ts.map renderToken ≠ [] := by simpa using hne
+      simp only [this, ↓reduceIte, build_tokens ts hne hp inv, parse_build ts.flatten hfl inv]
+    · intro name hn
+      have hsel : selects ts inv name = (inv != ts.flatten.any (matchSimple · name)) := by
+        simp only [selects, matchToken, List.any_flatten]
+      have hemp : ts.isEmpty = false := by simp [hts]
+      rw [hsel, hemp]
+      simp only [applyMatch, Bool.not_false, Bool.true_and]
+      cases inv with
+      | false => simp only [Bool.false_eq_true, ↓reduceIte, Re.matches, core_match _ hfl name hn]; simp
+      | true =>
+        simp only [↓reduceIte, Re.matches, seqOf, Re.m, core_match _ hfl name hn, Bool.and_true]
+        cases ts.flatten.any (matchSimple · name) <;> rfl
+
+theorem literal_render (name : List Char) (h : ∀ c ∈ name, isSpecial c = false) : renderSimple (literal name) = name := by
+  induction name with
+  | nil => rfl
+  | cons c cs ih =>
+    have hc := h c (by simp)
+    have := ih (fun d hd => h d (by simp [hd]))
+    simp only [renderSimple, literal, List.map_cons, List.flatMap_cons, renderCs, renderRep] at this ⊢
+    simp [hc, this]
+
+theorem literal_match (name s : List Char) : matchSimple (literal name) s = decide (s = name) := by
+  induction name generalizing s with
+  | nil => cases s <;> simp [literal, matchSimple]
+  | cons c cs ih =>
+    rw [Bool.eq_iff_iff]
+    simp only [literal, List.map_cons, decide_eq_true_eq]
+    rw [matchSimple_cons_iff]
+    constructor
+    · rintro ⟨n, ⟨hn, h1, hall⟩, hm⟩
+      have : n = 1 := by simpa [Rep.allows] using h1
+      subst this
+      cases s with
+      | nil => simp at hn
+      | cons d s =>
+        have hd := hall d (by simp)
+        simp only [Cs.accepts, beq_iff_eq] at hd
+        have := ih (s := s)
+        simp only [literal] at this
+        simp only [List.drop_succ_cons, List.drop_zero, this, decide_eq_true_eq] at hm
+        rw [hd, hm]
+    · rintro rfl
+      refine ⟨1, ⟨by simp, by simp [Rep.allows], by simp [Cs.accepts]⟩, ?_⟩
+      have := ih (s := cs)
+      simp only [literal] at this
+      simp [this]
+
+/-! ### the names the scanner reports contain no newline -/
+
+theorem skipWhile_all (p : Char → Bool) (b : Buf) (pos r : Nat) (h : skipWhile p b pos = some r) :
+    ∀ j, pos ≤ j → j < r → ∃ c, b[j]? = some c ∧ p c = true := by
+  fun_induction skipWhile p b pos with
+  | case1 pos hlt hp ih =>
+    intro j h1 h2
+    by_cases hj : j = pos
+    · subst hj; exact ⟨b[j], by simp [hlt], hp⟩
+    · exact ih h j (by omega) h2
+  | case2 pos hlt hp => intro j h1 h2; simp at h; omega
+  | case3 pos hge => simp at h
+
+theorem slice_mem (b : Buf) (i j : Nat) (c : Char) (h : c ∈ slice b i j) : ∃ k, i ≤ k ∧ k < j ∧ b[k]? = some c := by
+  unfold slice at h
+  obtain ⟨n, hn⟩ := List.mem_iff_getElem?.mp h
+  rw [List.getElem?_drop, List.getElem?_take] at hn
+  split at hn
+  · exact ⟨i + n, by omega, by omega, hn⟩
+  · cases hn
+
+theorem name_no_newline (b : Buf) (q : Char → Bool) (hq : q '\n' = false) (ns ne : Nat)
+    (h : skipWhile q b ns = some ne) : '\n' ∉ slice b ns ne := by
+  intro hm
+  obtain ⟨k, h1, h2, h3⟩ := slice_mem b ns ne '\n' hm
+  obtain ⟨c, hc, hqc⟩ := skipWhile_all q b ns ne h k h1 h2
+  rw [h3] at hc
+  cases hc
+  rw [hq] at hqc
+  cases hqc
+
+theorem isEnvvar_name (b : Buf) (pos ns ne np : Nat) (h : isEnvvar b pos = some (ns, ne, np)) :
+    '\n' ∉ slice b ns ne := by
+  unfold isEnvvar at h
+  cases h1 : skipWhile (oneOf " \t") b pos with
+  | none => simp only [h1, Option.bind_eq_bind, Option.bind_none, Option.bind_some, reduceCtorEq] at h
+  | some start =>
+    cases h2 : skipWhile (fun c => !oneOf "\x00\"'()- \t\n=" c) b start with
+    | none => simp only [h1, h2, Option.bind_eq_bind, Option.bind_none, Option.bind_some, reduceCtorEq] at h
+    | some p =>
+      simp only [h1, h2, Option.bind_eq_bind, Option.bind_some] at h
+      split at h
+      · split at h
+        · simp at h
+        · simp only [Option.some.injEq, Prod.mk.injEq] at h
+          obtain ⟨rfl, rfl, rfl⟩ := h
+          exact name_no_newline b _ (by decide) _ _ h2
+      · simp at h
+
+theorem isFunction_name (b : Buf) (pos ns ne np : Nat) (h : isFunction b pos = some (ns, ne, np)) :
+    '\n' ∉ slice b ns ne := by
+  unfold isFunction at h
+  cases h1 : skipWhile (oneOf " \t") b pos with
+  | none => simp only [h1, Option.bind_eq_bind, Option.bind_none, Option.bind_some, reduceCtorEq] at h
+  | some p1 =>
+    simp only [h1, Option.bind_eq_bind, Option.bind_some] at h
+    generalize hp2 : (if slice b p1 (p1 + 8) = "function".toList then
+        (match b[p1 + 8]? with
+         | some c => if isSpace c then p1 + 9 else p1
+         | none => p1)
+      else p1) = p2 at h
+    cases h3 : skipWhile isSpace b p2 with
+    | none => simp only [h3, Option.bind_eq_bind, Option.bind_none, Option.bind_some, reduceCtorEq] at h
+    | some p3 =>
+      simp only [h3, Option.bind_some] at h
+      cases h4 : skipWhile (fun c => !oneOf "\x00 \t\n=\"'()" c) b p3 with
+      | none => simp only [h4, Option.bind_eq_bind, Option.bind_none, Option.bind_some, reduceCtorEq] at h
+      | some p4 =>
+        simp only [h4, Option.bind_some] at h
+        split at h
+        · simp at h
+        · cases h5 : skipWhile (oneOf " \t") b p4 with
+          | none => simp only [h5, Option.bind_eq_bind, Option.bind_none, Option.bind_some, reduceCtorEq] at h
+          | some p5 =>
+            simp only [h5, Option.bind_some] at h
+            split at h
+            · simp at h
+            · cases h6 : skipWhile (oneOf " \t") b (p5 + 1) with
+              | none => simp only [h6, Option.bind_eq_bind, Option.bind_none, Option.bind_some, reduceCtorEq] at h
+              | some p6 =>
+                simp only [h6, Option.bind_some] at h
+                split at h
+                · simp at h
+                · cases h7 : skipWhile isSpace b (p6 + 1) with
+                  | none => simp only [h7, Option.bind_eq_bind, Option.bind_none, Option.bind_some, reduceCtorEq] at h
+                  | some p7 =>
+                    simp only [h7, Option.bind_some] at h
+                    split at h
+                    · simp at h
+                    · simp only [Option.some.injEq, Prod.mk.injEq] at h
+                      obtain ⟨rfl, rfl, _⟩ := h
+                      exact name_no_newline b _ (by decide) _ _ h4
+
+theorem scopeLoop_names (n : Nat) : ∀ (emit : Bool) (b : Buf) (vm fm : Option (List Char → Bool)) (e : Char)
+    (s : ScopeState) (r : ScopeResult), scopeLoop n emit b vm fm e s = .ok r →
+    (∀ st ∈ s.stmts, '\n' ∉ st.name) → ∀ st ∈ r.stmts, '\n' ∉ st.name := by
+  induction n with
+  | zero => intro emit b vm fm e s r h; rw [scopeLoop] at h; cases h
+  | succ n ih =>
+    intro emit b vm fm e s r h hs
+    rw [scopeLoop] at h
+    have hfin : ∀ s : ScopeState, (finishScope emit b e s).stmts = s.stmts := by
+      intro s; unfold finishScope; split <;> rfl
+    split at h
+    · simp only [Except.ok.injEq] at h; rw [← h, hfin]; exact hs
+    · split at h
+      · simp only [Except.ok.injEq] at h; rw [← h, hfin]; exact hs
+      · simp only [] at h
+        have hst : (flushWindow emit s).stmts = s.stmts := by unfold flushWindow; split <;> rfl
+        generalize flushWindow emit s = s' at h hst
+        rw [← hst] at hs
+        split at h
+        · exact ih _ _ _ _ _ _ _ h (by simpa using hs)
+        · split at h
+          · obtain ⟨p, hp, h⟩ := bind_ok h
+            exact ih _ _ _ _ _ _ _ h (by simpa using hs)
+          · split at h
+            · rename_i ns ne np hf
+              obtain ⟨sr, hsr, h⟩ := bind_ok h
+              refine ih _ _ _ _ _ _ _ h ?_
+              intro st hst'
+              simp only [List.mem_append, List.mem_singleton] at hst'
+              rcases hst' with hst' | rfl
+              · exact hs st hst'
+              · exact isFunction_name b s'.pos ns ne np hf
+            · split at h
+              · obtain ⟨p, hp, h⟩ := bind_ok h
+                exact ih _ _ _ _ _ _ _ h (by simpa using hs)
+              · rename_i ns ne np hv
+                have hv' := isEnvvar_name b s'.pos ns ne np hv
+                split at h
+                · simp only [Except.ok.injEq] at h
+                  rw [← h]
+                  intro st hst'
+                  simp only [List.mem_append, List.mem_singleton] at hst'
+                  rcases hst' with hst' | rfl
+                  · exact hs st hst'
+                  · exact hv'
+                · obtain ⟨p, hp, h⟩ := bind_ok h
+                  refine ih _ _ _ _ _ _ _ h ?_
+                  intro st hst'
+                  simp only [List.mem_append, List.mem_singleton] at hst'
+                  rcases hst' with hst' | rfl
+                  · exact hs st hst'
+                  · exact hv'
+
+theorem mainRun_names (data : List Char) (vm fm : Option (List Char → Bool)) (out : List Char) (r : ScopeResult)
+    (h : mainRun data vm fm = .ok (out, r)) : ∀ st ∈ r.stmts, '\n' ∉ st.name := by
+  unfold mainRun at h
+  simp only [] at h
+  split at h
+  · rename_i r' hr
+    simp only [Except.ok.injEq, Prod.mk.injEq] at h
+    obtain ⟨_, rfl⟩ := h
+    have hfuel : fuelFor (data ++ ['\x00']) = (6 * (data ++ ['\x00']).length + 15) + 1 := by unfold fuelFor; omega
+    rw [hfuel, processScope] at hr
+    exact scopeLoop_names _ _ _ vm fm _ _ r' hr (by simp)
+  · cases h
 
 end Pkgcore.C34
